@@ -181,6 +181,12 @@ func (w *c11World) setup(s c11Scn) (c11Setup, error) {
 		body := `<VersioningConfiguration xmlns="http://s3.amazonaws.com/doc/2006-03-01/"><Status>` + status + `</Status></VersioningConfiguration>`
 		return must("versioning "+status, w.do(addr, gw.Req{Method: "PUT", Path: "/" + c11Bucket, Query: "versioning=", Body: []byte(body)}), 200)
 	}
+	if s.Pre == "nullarch" {
+		// the key predates versioning: its first generation becomes the NULL version, archived by the next write
+		if err := must("put before versioning", w.putObject(addr, s.Key, c11Obj{Body: "null-generation", CType: "text/null", Meta: map[string]string{"gen": "null"}}), 200); err != nil {
+			return st, err
+		}
+	}
 	if s.Versioning == "Enabled" || s.Versioning == "Suspended" {
 		// objects of the pre-state are created while versioning is Enabled (they carry version ids)
 		if err := setVer("Enabled"); err != nil {
@@ -198,7 +204,7 @@ func (w *c11World) setup(s c11Scn) (c11Setup, error) {
 			return st, err
 		}
 		fallthrough
-	case "present":
+	case "present", "nullarch":
 		if err := must("put old", w.putObject(addr, s.Key, s.Old), 200); err != nil {
 			return st, err
 		}
@@ -1305,6 +1311,8 @@ func c11Scenarios(a lib.Args) []c11Scn {
 		lock(mk("complete", flat, "absent", false, false, "", false)), // … an upload created with a legal hold
 		mk("put", short, "present", false, false, "Enabled", false),
 		mk("delete", short, "present", false, false, "Enabled", false),
+		mk("delete", short, "nullarch", false, false, "Suspended", false), // the archived null version goes with the null delete marker
+		mk("put", short, "nullarch", false, false, "Suspended", false),    // the archived null version is replaced by the new null version
 		mk("put", short, "present", false, true, "", false),
 		mk("delete", short, "present", false, true, "", false), // sidecar: attributes and object removed in separate steps
 		mk("copy", flat, "absent", false, true, "", true),
@@ -1338,10 +1346,15 @@ func c11Scenarios(a lib.Args) []c11Scn {
 				for _, sidecar := range []bool{false, true} {
 					pres := []string{"absent", "present"}
 					if (ver == "Enabled" || ver == "Suspended") && op != "uploadpart" {
-						pres = append(pres, "present2", "marker")
+						pres = append(pres, "present2", "marker", "nullarch")
 					}
 					for _, pre := range pres {
 						if op == "delete" && pre == "absent" {
+							continue
+						}
+						if pre == "nullarch" && sidecar {
+							// Model.Crash.deleteNullVersion has no step for the by-name attributes of the archived
+							// null version (removed with it since 4b1a0ed): the pre-state is run with xattrs only
 							continue
 						}
 						key := []string{flat, short, nested}[r.Intn(3)]
@@ -1449,6 +1462,6 @@ func c11Check(a lib.Args, res *lib.Result) error {
 
 func init() {
 	checks["c11"] = checkDef{"C11",
-		"crash scenarios = request kind (put/copy/complete/uploadpart/delete) x pre-state (absent/present/two generations/delete marker) x temp-file strategy (O_TMPFILE / named temp) x metadata store (xattr / sidecar) x bucket versioning (none/off/Enabled/Suspended) x key shape (flat / nested); for each scenario every step index of the traced request is a crash point. Non-trivial = the kill left at least one executed step behind or the scenario has a pre-existing object; distinct by (scenario class, crash point).",
+		"crash scenarios = request kind (put/copy/complete/uploadpart/delete) x pre-state (absent/present/two generations/delete marker/null version archived) x temp-file strategy (O_TMPFILE / named temp) x metadata store (xattr / sidecar) x bucket versioning (none/off/Enabled/Suspended) x key shape (flat / nested); for each scenario every step index of the traced request is a crash point. Non-trivial = the kill left at least one executed step behind or the scenario has a pre-existing object; distinct by (scenario class, crash point).",
 		[]checkFn{c11Check}}
 }
